@@ -25,6 +25,7 @@ import (
 
 	scalibr "github.com/google/osv-scalibr"
 	"github.com/google/osv-scalibr/extractor/filesystem"
+	javaarchive "github.com/google/osv-scalibr/extractor/filesystem/language/java/archive"
 	el "github.com/google/osv-scalibr/extractor/filesystem/list"
 	"github.com/google/osv-scalibr/extractor/filesystem/os/rpm"
 	scalibrfs "github.com/google/osv-scalibr/fs"
@@ -72,6 +73,7 @@ type msg struct {
 	SlowMs int64  `json:"slow_ms,omitempty"`
 	Obs    string `json:"obs,omitempty"`
 	Stack  string `json:"stack,omitempty"`
+	Pct    int    `json:"pct,omitempty"` // tight-budget units: largest allocation as a percentage of the oracle's limit
 }
 
 const osRelease = "NAME=\"Debian GNU/Linux\"\nID=debian\nVERSION_ID=\"12\"\nVERSION_CODENAME=bookworm\n"
@@ -174,6 +176,19 @@ func rpmTimeout() time.Duration {
 		return 30 * time.Second
 	}
 	return 8 * time.Second
+}
+
+// tightBudget is MaxOpenedBytes of the "tight-budget" java/archive variant.
+const tightBudget = 256 << 10
+
+// newExtractorVariant returns the instance a placement asks for.
+func newExtractorVariant(name, variant string) filesystem.Extractor {
+	if name == javaarchive.Name && variant == "tight-budget" {
+		cfg := javaarchive.DefaultConfig()
+		cfg.MaxOpenedBytes = tightBudget
+		return javaarchive.New(cfg)
+	}
+	return newExtractor(name)
 }
 
 func newExtractor(name string) filesystem.Extractor {
@@ -778,7 +793,9 @@ func runExtractUnit(u unit) error {
 	}
 	// the placement must be one the extractor accepts (fresh instance: os/nix remembers what it saw)
 	var accepted bool
-	if p, stack := recoverBig(func() { accepted = newExtractor(u.Ex).FileRequired(fileAPI{sc.e.fsys(), sc.c.Path}) }); p != nil {
+	if p, stack := recoverBig(func() {
+		accepted = newExtractorVariant(u.Ex, sc.c.Variant).FileRequired(fileAPI{sc.e.fsys(), sc.c.Path})
+	}); p != nil {
 		send(msg{T: "viol", Key: causeKey(u.Ex, "", stack), What: fmt.Sprintf("%s FileRequired(%s) panicked: %v", u.Ex, sc.c.Path, p), Seq: 0})
 		send(msg{T: "done"})
 		return nil
@@ -786,13 +803,14 @@ func runExtractUnit(u unit) error {
 	if !accepted {
 		return harnessErr{fmt.Sprintf("%s: FileRequired rejects %s", u.Ex, sc.c.Path)}
 	}
-	ex := newExtractor(u.Ex)
+	ex := newExtractorVariant(u.Ex, sc.c.Variant)
 	seen := map[uint64]struct{}{}
 	classes := map[string]bool{}
 	var hashes []uint64
 	var evals, exerc int64
 	var maxAlloc uint64
 	var slow time.Duration
+	budgetPct := 0
 	partial := false
 	recycleAt := -1
 	var herr error
@@ -851,6 +869,23 @@ func runExtractUnit(u unit) error {
 			exerc++
 			hashes = append(hashes, h)
 		}
+		if sc.c.Variant == "tight-budget" {
+			// The extractor's own contract (Config.MaxOpenedBytes: "maximum number of bytes recursively read from an
+			// archive file; if this limit is reached, extraction is halted"). Bytes read cannot be seen from outside,
+			// bytes allocated can, and every inner archive is io.ReadAll'ed: reading n bytes allocates <= ~6.25 n
+			// (append growth 1.25x). Honouring the cap reads <= 2 x budget (the check precedes the read of the last
+			// entry), i.e. allocates <= 12.5 x budget plus bookkeeping that grows with the file (zip directory, flate
+			// state per entry). The limit below is 2.5 x that plus 64 bytes per file byte plus 8 MiB (HEAD stays below a third of it).
+			final := int64(len(src.wrap(data)))
+			limit := uint64(32*tightBudget + 64*final + 8<<20)
+			if p := int(res.alloc * 100 / limit); p > budgetPct {
+				budgetPct = p
+			}
+			if res.alloc > limit {
+				send(msg{T: "viol", Key: u.Ex + ":opened-bytes-budget", Seq: seq,
+					What: fmt.Sprintf("%s (MaxOpenedBytes=%d) allocated %d bytes during one Extract of a %d-byte archive, more than %d: its size cap did not halt the extraction [seed %s, %s]", u.Ex, tightBudget, res.alloc, final, limit, label, d)})
+			}
+		}
 		if res.dt > 5*time.Second {
 			send(msg{T: "slow", Seq: seq, SlowMs: res.dt.Milliseconds(), Alloc: res.alloc, What: d.String()})
 		}
@@ -880,10 +915,10 @@ func runExtractUnit(u unit) error {
 		return herr
 	}
 	if recycleAt >= 0 {
-		send(msg{T: "recycle", Seq: recycleAt, Evals: evals, Exerc: exerc, Alloc: maxAlloc, SlowMs: slow.Milliseconds()})
+		send(msg{T: "recycle", Seq: recycleAt, Evals: evals, Exerc: exerc, Alloc: maxAlloc, SlowMs: slow.Milliseconds(), Pct: budgetPct})
 		os.Exit(0)
 	}
-	send(msg{T: "done", Evals: evals, Exerc: exerc, Total: total, Part: partial, Alloc: maxAlloc, SlowMs: slow.Milliseconds()})
+	send(msg{T: "done", Evals: evals, Exerc: exerc, Total: total, Part: partial, Alloc: maxAlloc, SlowMs: slow.Milliseconds(), Pct: budgetPct})
 	return nil
 }
 
@@ -983,11 +1018,13 @@ func runContainUnit(u unit) error {
 		return harnessErr{err.Error()}
 	}
 	var required bool
-	if p, _ := recoverBig(func() { required = newExtractor(u.Ex).FileRequired(fileAPI{sc.e.fsys(), sc.c.Path}) }); p != nil {
+	if p, _ := recoverBig(func() {
+		required = newExtractorVariant(u.Ex, sc.c.Variant).FileRequired(fileAPI{sc.e.fsys(), sc.c.Path})
+	}); p != nil {
 		required = false
 	}
 	announce(u.Seq)
-	with, pval, stack := sc.scan(newExtractor(u.Ex), newExtractor(hName))
+	with, pval, stack := sc.scan(newExtractorVariant(u.Ex, sc.c.Variant), newExtractor(hName))
 	rp := func() string {
 		return fmt.Sprintf("[%s at %s, seed %s, %s, content %s]", u.Ex, sc.c.mutPath(), u.Seed, desc, preview(data))
 	}
@@ -1000,7 +1037,7 @@ func runContainUnit(u unit) error {
 		return harnessErr{err.Error()}
 	}
 	sc.e.reset()
-	without, pval2, _ := sc.scan(newExtractor(u.Ex), newExtractor(hName))
+	without, pval2, _ := sc.scan(newExtractorVariant(u.Ex, sc.c.Variant), newExtractor(hName))
 	if pval2 != nil || !without.completed || without.overall != "SUCCEEDED" || !strings.HasPrefix(without.healthy, "status=SUCCEEDED packages=[") || strings.HasSuffix(without.healthy, "packages=[]") {
 		return harnessErr{fmt.Sprintf("contain: reference scan without the bad file is not healthy: overall=%s %s", without.overall, without.healthy)}
 	}
